@@ -308,8 +308,8 @@ fn run_exp_test_br(sh: &mut shell::Shell,
             let pairs_test: Vec<Pair<parsers::locust::Rule>> =
                 pair.into_inner().collect();
             let pair_test = &pairs_test[0];
-            let line = pair_test.as_str().trim();
-            let line_new = expand_args(line, &args[1..]);
+            let line = parsers::parser_line::trim_cmd(pair_test.as_str());
+            let line_new = expand_args(&line, &args[1..]);
             let mut _cr_list = execute::run_command_line(sh, &line_new, true, capture);
             if let Some(last) = _cr_list.last() {
                 if last.status == 0 {
@@ -493,7 +493,9 @@ fn run_exp(sh: &mut shell::Shell,
                 }
             }
 
-            let line_new = expand_args(line, &args[1..]);
+            // like `line`, but a backslash-escaped blank at the end is kept
+            let line = parsers::parser_line::trim_cmd(pair.as_str());
+            let line_new = expand_args(&line, &args[1..]);
             let mut _cr_list = execute::run_command_line(sh, &line_new, true, capture);
             cr_list.append(&mut _cr_list);
             if let Some(last) = cr_list.last() {
